@@ -2,6 +2,9 @@ mod c01;
 mod c02;
 mod c03;
 mod c06;
+mod c07;
+mod c09;
+mod c10;
 mod c15;
 mod debug;
 mod e1;
@@ -21,6 +24,9 @@ fn main() {
         "C02" => c02::run(rest),
         "C03" => c03::run(rest),
         "C06" => c06::run(rest),
+        "C07" => c07::run(rest),
+        "C09" => c09::run(rest),
+        "C10" => c10::run(rest),
         "C15" => c15::run(rest),
         "debug" => debug::run(rest),
         _ => mc_core::machinery_error(&format!("mc-graph does not serve {prop}")),
